@@ -5,7 +5,9 @@
         -> "ok <out16> <bound>"  or "FAULT-PARSE" / "FAULT-FORMAT" (a checked operation returned None)
    mode "oracle":  same fields followed by <implementation output16>  -> 1/0 = prop_c14_pattern_b
    mode "pretty":  <colorize> <maxw> <n> {<type> <cat16 or "~"> <msg16>}   (the model decides what the default category is)
-        -> "ok <out16> ..." (the text after "<time> " of each message) or "FAULT" *)
+        -> "ok <out16> ..." (the text after "<time> " of each message) or "FAULT"
+   mode "configure":  <n> {<type> <cat16 or "~"> <msg16>}   the formatter chain of configure(pipeline, path, ...):
+        PrettyFormatter(colour, default limit) -> colour codes removed; same answer format as "pretty" *)
 open Safety_model
 let rec pos_of_int n = if n = 1 then XH else if n land 1 = 1 then XI (pos_of_int (n lsr 1)) else XO (pos_of_int (n lsr 1))
 let n_of_int n = if n = 0 then N0 else Npos (pos_of_int n)
@@ -33,7 +35,16 @@ let () =
     let line = input_line stdin in
     let f = List.filter (fun s -> s <> "") (String.split_on_char ' ' line) in
     (try
-      if mode = "pretty" then begin
+      if mode = "configure" then begin
+        match f with
+        | n :: rest ->
+          let rec items k l = if k = 0 then [] else match l with t :: c :: m :: r ->
+              ((mtype_of (int_of_string t), (if c = "~" then None else Some (un16 c))), un16 m) :: items (k-1) r | _ -> [] in
+          (match configure_seq_raw_c Z0 (items (int_of_string n) rest) with
+           | Some outs -> print_endline ("ok " ^ String.concat " " (List.map hex16 outs))
+           | None -> print_endline "FAULT")
+        | _ -> print_endline "?"
+      end else if mode = "pretty" then begin
         match f with
         | col :: maxw :: n :: rest ->
           let rec items k l = if k = 0 then [] else match l with t :: c :: m :: r ->
